@@ -1,6 +1,9 @@
 import S2T.Lemmas.Iface
 import S2T.Gen.Iface
 import S2T.Props.C04_Src
+import S2T.Props.C04_Streams
+import S2T.Props.C04_StreamSites
+import S2T.Props.C04_OptText
 /-!
 # C04 — every result honours the common interface, for any input
 
